@@ -23,6 +23,8 @@ extern unsigned char inj_data[65536];
 extern int inj_len;
 extern struct sockaddr_storage inj_from;
 extern socklen_t inj_fromlen;
+extern int inj_dest_family;		/* 4: recvmsg() reports inj_dest4 as the IPv4 destination address */
+extern unsigned char inj_dest4[4];
 extern int inj_residue;			/* -1: leave the caller's buffer alone; else fill byte pattern id */
 void inj_set(const unsigned char *d, int len);
 void residue_fill(unsigned char *buf, size_t cap, int pattern);
@@ -45,6 +47,7 @@ void srv_write_dns(struct query *q, const char *data, int datalen, char downenc)
 int srv_read_dns(struct query *q);		/* read_dns(fd...) on the injected datagram */
 void srv_tunnel_dns(void);			/* tunnel_dns on the injected datagram */
 void srv_tunnel_tun(void);
+void srv_set_ns_ip(const unsigned char *ip4);	/* NULL: INADDR_ANY */
 void srv_sweep(void);				/* the send-real-soon sweep of tunnel() */
 void srv_handle_null_request(struct query *q, int domain_len);
 const char *srv_topdomain(void);
